@@ -752,14 +752,23 @@ def judge_request(res, item, raw, fresh_draws, used_keys, what_input):
         d.setdefault(n.lower(), []).append(val)
     port = u['port'] if u['port'] else (443 if u['secure'] else 80)
     want = {b'host': ('%s:%d' % (u['host'], port)).encode(), b'upgrade': b'websocket', b'connection': b'Upgrade', b'sec-websocket-version': b'13'}
+    default_port = port == (443 if u['secure'] else 80)
     for n, val in want.items():
         got = d.get(n, [])
         ok = len(got) == 1 and (got[0].lower() == val.lower() if n in (b'upgrade', b'connection', b'host') else got[0] == val)
+        if n == b'host' and len(got) == 1 and default_port and got[0].lower() == u['host'].lower().encode():
+            ok = True            # RFC 7230 5.4: the port may be omitted when it is the default of the scheme
         if not ok:
             fail('request-header', 'header %s is %r, expected exactly one %r' % (n.decode(), got, val))
     custom = [(bytes.fromhex(h), bytes.fromhex(x)) for h, x in item['headers']]
-    if hdrs[:len(custom)] != custom:
-        fail('request-custom-headers', 'custom headers not sent first, in order, verbatim')
+    # every custom header is sent verbatim (where in the request, and in which order, is not part of 'well-formed')
+    rest = list(hdrs)
+    for c in custom:
+        if c in rest:
+            rest.remove(c)
+        else:
+            fail('request-custom-headers', 'custom header %r: %r not sent verbatim' % c)
+            break
     offered = d.get(b'sec-websocket-protocol', [])
     if item['protocols']:
         if len(offered) != 1 or [p.strip() for p in offered[0].split(b',')] != [p.encode('utf-8') for p in item['protocols']]:
@@ -784,7 +793,9 @@ def judge_request(res, item, raw, fresh_draws, used_keys, what_input):
     if len(rawkey) != 16 or base64.b64encode(rawkey) != key:
         fail('request-key', 'key %r is not the base64 of 16 bytes' % key)
         return key
-    if rawkey.hex() not in fresh_draws:
+    if fresh_draws and rawkey.hex() not in fresh_draws:
+        # the harness's entropy source WAS consulted during this connect(): then the key must come from it (a client using
+        # another source is judged by the freshness rule below only)
         fail('key-not-fresh', 'key %r is not a 16-byte draw made during this connect() (draws: %s)' % (key, fresh_draws))
     if key in used_keys:
         fail('key-not-fresh', 'key %r was already used by an earlier connect()' % key)
